@@ -47,7 +47,7 @@ Definition ex_dict_items : list (key * node) :=
 Ltac hist_ok := repeat (split; [split; reflexivity|]; split; [reflexivity|]; eexists; split; [reflexivity|]); try exact I.
 
 Example ex_list_hypotheses :
-  root_is ex_state 0 1%N KList default_flags ex_list_items /\ clean ex_list_items /\
+  at_is ex_state (0%nat, []) 1%N KList None default_flags ex_list_items /\ clean ex_list_items /\
   lhist2_ok default_flags (evals ex_list_items) ex_list_history.
 Proof.
   split; [vm_compute; reflexivity|]. split.
@@ -55,7 +55,7 @@ Proof.
   - unfold ex_list_history. cbn [lhist2_ok]. hist_ok.
 Qed.
 Example ex_dict_hypotheses :
-  root_is ex_state 1 3%N KDict default_flags ex_dict_items /\ clean ex_dict_items /\
+  at_is ex_state (1%nat, []) 3%N KDict None default_flags ex_dict_items /\ clean ex_dict_items /\
   dhist_ok default_flags (eitems ex_dict_items) ex_dict_history.
 Proof.
   split; [vm_compute; reflexivity|]. split.
@@ -67,3 +67,22 @@ Example ex_list_result :
   lhist2_py (evals ex_list_items) ex_list_history =
   [PLeaf (LInt 7); PLeaf (LInt 12); PLeaf (LInt 5); PLeaf (LInt 7); PLeaf (LInt 12); PLeaf (LInt 0)].
 Proof. vm_compute. reflexivity. Qed.
+
+(* a container below a root: the dict stored at index 1 of the list *)
+Definition ex_nested_pos : pos := (0%nat, [KI 1]).
+Definition ex_nested_items : list (key * node) := [(ka, Leaf (LInt 2))].
+Definition ex_nested_history : list (scope * op value) :=
+  [ (sc0, DSet true kb (VLit (LitNode KList default_flags true [(KI 0, LitLeaf (LInt 1))])));
+    (sc0, DUpdate [(ka, vi 5); (KI 3, vi 6)]);
+    (sc0, DPop ka None) ].
+Example ex_nested_hypotheses :
+  at_is ex_state ex_nested_pos 2%N KDict (Some 1%N) default_flags ex_nested_items /\ clean ex_nested_items /\
+  anc_clean ex_state ex_nested_pos /\ dhist_ok default_flags (eitems ex_nested_items) ex_nested_history.
+Proof.
+  split; [vm_compute; reflexivity|]. split; [repeat (constructor; [reflexivity|]); constructor|]. split.
+  - red. unfold ex_nested_pos. simpl. intros pre suf i pa pt fl its E NE G.
+    destruct pre as [|k pre].
+    + vm_compute in G. inv G. repeat (constructor; [reflexivity|]). constructor.
+    + destruct pre; destruct suf; simpl in E; try discriminate; congruence.
+  - unfold ex_nested_history. cbn [dhist_ok]. hist_ok.
+Qed.
